@@ -88,8 +88,16 @@ impl<'a> Reader<'a> {
                 #[warn(unsafe_code)]
                 let mut builder = unsafe { UserValue::builder_unzeroed(real_val_len as usize) };
 
-                lz4_flex::decompress_into(&raw_data, &mut builder)
+                let bytes_written = lz4_flex::decompress_into(&raw_data, &mut builder)
                     .map_err(|_| crate::Error::Decompress(self.blob_file.0.meta.compression))?;
+
+                // NOTE: The length fields of the blob header are not covered by the checksum,
+                // so make sure the whole (unzeroed) buffer was actually filled
+                if bytes_written != real_val_len as usize {
+                    return Err(crate::Error::Decompress(
+                        self.blob_file.0.meta.compression,
+                    ));
+                }
 
                 builder.freeze().into()
             }
